@@ -5,3 +5,4 @@ cd /verif/mc
 export CARGO_NET_OFFLINE=true
 mkdir -p /verif/target
 CARGO_TARGET_DIR=/verif/target/a cargo build --release --offline
+cd /repo && RUSTFLAGS="--cfg stylua_verif" CARGO_TARGET_DIR=/verif/target/cli cargo build --release --offline --features luau,lua54,luajit
